@@ -994,6 +994,15 @@ func execEngine(in J) J {
 				"n_funding": 0, "choices": []int{}, "counts": []int{}, "steps": 0}
 		}
 		run := runEngineSchedule(sc.Requests, sc.Funding, sc.Metadata, p)
+		if run["watchdog"] == true {
+			// a stall of the machine (loaded host) does not repeat, a protocol the scheduler no longer predicts does:
+			// the same plan is run once more before the run is reported
+			if again := runEngineSchedule(sc.Requests, sc.Funding, sc.Metadata, p); again["watchdog"] != true {
+				engWatchdogs--
+				again["retried"] = true
+				run = again
+			}
+		}
 		if sc.Twin { // the same history without its previews (C14)
 			run["twin"] = runEngineSchedule(real, sc.Funding, sc.Metadata, p)
 		}
@@ -1123,7 +1132,12 @@ func genEngine(r *rng, n int, tier string, emit func(J)) {
 				case "create":
 					q = create(g, ph, "alice", "bob", 20)
 				case "revert":
-					q = J{"kind": "revert", "target": 1, "force": false}
+					// the same key for reverts of the same and of other transactions (a replay answers the recorded one)
+					t := 1
+					if g.p(50) {
+						t = g.n(len(funding))
+					}
+					q = J{"kind": "revert", "target": t, "force": g.p(30)}
 				case "setmeta":
 					q = J{"kind": "setmeta", "acct": "alice", "key": "k1", "val": fmt.Sprintf("v%d", i)}
 				default:
